@@ -550,6 +550,11 @@ def trace_id_uses(ctx, world):
                             if x.targets[0].id not in tainted:
                                 tainted.add(x.targets[0].id)
                                 changed = True
+                    elif isinstance(x, ast.Assign) and len(x.targets) == 1 and isinstance(x.targets[0], (ast.Tuple, ast.List)) and isinstance(x.value, (ast.Tuple, ast.List)) and len(x.value.elts) == len(x.targets[0].elts):
+                        for t_, v in zip(x.targets[0].elts, x.value.elts):
+                            if isinstance(t_, ast.Name) and ((v in reads) or (isinstance(v, ast.Name) and v.id in tainted)) and t_.id not in tainted:
+                                tainted.add(t_.id)
+                                changed = True
             for x in own:
                 if isinstance(x, ast.Name) and isinstance(x.ctx, ast.Load) and x.id in tainted:
                     reads.append(x)
@@ -593,6 +598,8 @@ def _use_ok(world, mod, rd, tainted):
         pp = getattr(p, "_parent", None)
         if isinstance(pp, ast.Return):
             return True, ""
+        if isinstance(pp, ast.Assign) and pp.value is p and len(pp.targets) == 1 and isinstance(pp.targets[0], (ast.Tuple, ast.List)) and len(pp.targets[0].elts) == len(p.elts) and all(isinstance(t_, ast.Name) for t_ in pp.targets[0].elts):
+            return True, ""  # parallel assignment a, b = trace, other: a local copy
         return False, "an element of a data structure"
     if isinstance(p, ast.AugAssign) and p.target is rd:
         return True, ""
